@@ -312,7 +312,22 @@ Law3Verdict(c, e) ==
   ELSE IF ~MR!SameElement(xy, MR!GP(c, x, y)) THEN "value_differs_from_definition"
   ELSE "ok"
 
+\* A recorded multivector is well formed when it has as many coefficients as keys.  Checked before any clause decodes
+\* it, so that a malformed result of the library is a rejection (never an evaluation error of the specification).
+OkMV(m) == Len(m.keys) = Len(m.coefs)
+EventWF(e) ==
+  LET F == DOMAIN e IN
+  /\ (("res" \in F /\ "coefs" \in DOMAIN e.res) => OkMV(e.res))
+  /\ (("res" \in F /\ "flat" \in DOMAIN e.res) => Len(e.res.keys) = Len(e.res.flat))
+  /\ ("direct" \in F => OkMV(e.direct))
+  /\ ("fresh" \in F => OkMV(e.fresh.res))
+  /\ ("res0" \in F => OkMV(e.res0))
+  /\ ("evals" \in F => \A i \in DOMAIN e.evals : OkMV(e.evals[i].res))
+  /\ ("r" \in F /\ e.kind = "cert" => OkMV(e.r))
+  /\ (e.kind \in {"law", "law3"} => \A f \in F \ {"id", "kind", "op", "raised", "params", "ring", "args"} : OkMV(e[f]))
+
 Verdict(e) ==
+  IF ~EventWF(e) THEN "result_not_well_formed" ELSE
   CASE e.kind = "op" -> OpEventVerdict(CC, e)
     [] e.kind = "law3" -> Law3Verdict(CC, e)
     [] e.kind = "law" -> LawVerdict(CC, e)
